@@ -401,7 +401,11 @@ impl Gen {
                     let (src, dst, n) = *self.rng.pick(&cands);
                     let k = self.rng.below(n as u64);
                     let nh = self.peers.iter().find(|p| p.sid == src).map_or(1, |p| p.handles.len().max(1));
-                    let m = match self.rng.below(9) {
+                    // a wrong magic number is only recognisable once the handshake has fixed the
+                    // peer's magic: before that the protocol cannot tell (outside C08's claim)
+                    let pick = self.rng.below(9);
+                    let pick = if pick == 0 && !self.w.is_running(dst) { 1 } else { pick };
+                    let m = match pick {
                         0 => "magic".to_owned(),
                         1 => "addr".to_owned(),
                         2 => "status-".to_owned(),
